@@ -35,7 +35,7 @@ def _compute(tier, seed):
     E = rr.eps()
     traces, meta = [], []
     for i, ep in enumerate(E):
-        for sk in ('int', 'none', 'gen'):
+        for sk in ('int', 'int:zero', 'int:np', 'none', 'gen'):
             if sk == 'gen' and not ep['gen_ok']:
                 continue
             t, err = rr.record_trace(i, sk)
@@ -82,7 +82,7 @@ def run(tier, seed):
                transitions=sum(r['transitions'] for r in out['runs']) + out['trace_run']['transitions'],
                traces_validated_against_impl=n, evaluations=n + 5 * len(out['patterns']),
                distinct_nontrivial=sum(1 for m in out['meta'] if m[1] != 'none'), exhaustive=False,
-               rule='every sampling entry point (%d) x seed argument kind (int, None, Generator): recorded generator events '
+               rule='every sampling entry point (%d) x seed argument kind (int, the int 0, a NumPy int, None, Generator): recorded generator events '
                     'validated against Trace_RandomStreams; plus equality patterns with the real generators (same seed twice '
                     'around global-generator perturbations and an unrelated call, two seeds, a generator passed twice); '
                     'non-trivial = a seeded or generator call' % len(out['patterns']),
